@@ -4,6 +4,8 @@
    For each sampled mutant: apply, build, run the repository's tests, run every quick check, revert. Prints one line per mutant."""
 import os, random, re, subprocess, sys, time
 V = os.path.dirname(os.path.dirname(os.path.abspath(__file__)))
+os.environ.setdefault("VERIF_EVIDENCE_DIR", "/tmp/verif_experiment_evidence")
+os.makedirs(os.path.join(os.environ["VERIF_EVIDENCE_DIR"], "replays"), exist_ok=True)
 REPO = os.environ["RSP_REPO"]
 n, seed = int(sys.argv[1]), int(sys.argv[2])
 rng = random.Random(seed)
